@@ -2,16 +2,17 @@
 # selftest/run_seeded.sh [tier] [ids...]: apply each seeded change to /repo, run the quick check of its property,
 # revert, and record the outcome in selftest/seeded_results.tsv (id, property, rc, seconds, first message).
 TIER="${1:-quick}"; shift
-cd /verif
+V="${VERIF_DIR:-/verif}"; R="${REPO_DIR:-/repo}"
+cd "$V"
 # evidence files are rewritten by every run: keep the ones from the unchanged tree
 EVBAK=$(mktemp -d); cp -a evidence/. $EVBAK/ 2>/dev/null
-trap 'cp -a $EVBAK/. /verif/evidence/ 2>/dev/null; rm -rf $EVBAK' EXIT
+trap 'cp -a $EVBAK/. $V/evidence/ 2>/dev/null; rm -rf $EVBAK' EXIT
 IDS="${@:-$(ls seeded | grep -v ^_)}"
 for id in $IDS; do
   d=seeded/$id; prop=$(python3 -c "import json;print(json.load(open('$d/meta.json'))['property'])")
-  git -C /repo checkout -q -- . ; git -C /repo apply /verif/$d/patch.diff || { echo -e "$id\t$prop\tAPPLY-FAIL"; continue; }
+  git -C $R checkout -q -- . ; git -C $R apply $V/$d/patch.diff || { echo -e "$id\t$prop\tAPPLY-FAIL"; continue; }
   t0=$(date +%s); out=$(./check $prop $TIER 2>&1); rc=$?; t1=$(date +%s)
-  git -C /repo checkout -q -- .
+  git -C $R checkout -q -- .
   msg=$(echo "$out" | grep -A1 VIOLATION | grep -v VIOLATION | head -1 | cut -c1-300)
   echo -e "$id\t$prop\t$rc\t$((t1-t0))\t$msg"
 done
